@@ -523,6 +523,8 @@ func recvNamedCI(ci ssa.CallInstruction, name string) bool {
 
 func runC11(c *core.Ctx) {
 	checkLayerMutatorsUnconditional(c)
+	// a failed transaction contributes nothing to the digest: its cache is discarded before the next one runs
+	checkResetBeforeTx(c, "C11.failed-tx-discarded")
 	ch := c.Fn(pkOverlayDB, "OverlayDB.ChangeHash")
 	fe := c.Fn(pkOverlayDB, "MemDB.ForEach")
 	put := c.Fn(pkOverlayDB, "MemDB.Put")
